@@ -2682,6 +2682,45 @@ pub fn next_transition(
 
 // ==== end extracted ====
 
-
+// ---- C02, "converting that civil datetime back with o yields exactly t": the two conversion contracts compose to the identity
+#[verifier::spinoff_prover]
+pub proof fn lemma_day_decomp_unique(a1: int, n1: int, a2: int, n2: int)
+    requires a1 * 86_400_000_000_000 + n1 == a2 * 86_400_000_000_000 + n2, 0 <= n1 < 86_400_000_000_000, 0 <= n2 < 86_400_000_000_000,
+    ensures a1 == a2, n1 == n2,
+{
+    if a1 < a2 { assert((a2 - a1) * 86_400_000_000_000 >= 86_400_000_000_000) by (nonlinear_arith) requires a2 - a1 >= 1; }
+    if a2 < a1 { assert((a1 - a2) * 86_400_000_000_000 >= 86_400_000_000_000) by (nonlinear_arith) requires a1 - a2 >= 1; }
+}
+#[verifier::spinoff_prover]
+pub proof fn lemma_time_unique(t1: ITime, t2: ITime)
+    requires t1.wf(), t2.wf(), t1.ns_of_day() == t2.ns_of_day(),
+    ensures t1 == t2,
+{
+    let s1 = t1.hour * 3600 + t1.minute * 60 + t1.second; let s2 = t2.hour * 3600 + t2.minute * 60 + t2.second;
+    assert(t1.ns_of_day() == s1 * 1_000_000_000 + t1.subsec_nanosecond);
+    assert(t2.ns_of_day() == s2 * 1_000_000_000 + t2.subsec_nanosecond);
+    if s1 < s2 { assert((s2 - s1) * 1_000_000_000 >= 1_000_000_000) by (nonlinear_arith) requires s2 - s1 >= 1; }
+    if s2 < s1 { assert((s1 - s2) * 1_000_000_000 >= 1_000_000_000) by (nonlinear_arith) requires s1 - s2 >= 1; }
+    assert(s1 == s2 && t1.subsec_nanosecond == t2.subsec_nanosecond);
+    let m1 = t1.hour * 60 + t1.minute; let m2 = t2.hour * 60 + t2.minute;
+    assert(s1 == m1 * 60 + t1.second && s2 == m2 * 60 + t2.second);
+    assert(m1 == m2 && t1.second == t2.second);
+    assert(t1.hour == t2.hour && t1.minute == t2.minute);
+}
+/// datetime -> timestamp -> datetime is the identity, and timestamp -> datetime -> timestamp keeps the instant
+#[verifier::spinoff_prover]
+pub proof fn lemma_c02_roundtrip(dt: IDateTime, off: int, sec: int, ns: int, dt2: IDateTime)
+    requires dt.date.wf(), dt.time.wf(), dt2.date.wf(), dt2.time.wf(),
+             // postcondition of IDateTime::to_timestamp(dt, off) = (sec, ns)
+             sec * 1_000_000_000 + ns == dt.date.rd() * 86_400_000_000_000 + dt.time.ns_of_day() - off * 1_000_000_000,
+             // postcondition of ITimestamp::to_datetime((sec, ns), off) = dt2
+             dt2.date.rd() * 86_400_000_000_000 + dt2.time.ns_of_day() == (sec + off) * 1_000_000_000 + ns,
+    ensures dt2 == dt,
+{
+    assert((sec + off) * 1_000_000_000 == sec * 1_000_000_000 + off * 1_000_000_000) by (nonlinear_arith);
+    lemma_day_decomp_unique(dt.date.rd(), dt.time.ns_of_day(), dt2.date.rd(), dt2.time.ns_of_day());
+    lemma_rd_inj(dt.date.year as int, dt.date.month as int, dt.date.day as int, dt2.date.year as int, dt2.date.month as int, dt2.date.day as int);
+    lemma_time_unique(dt.time, dt2.time);
+}
 } // verus!
 fn main() {}
